@@ -94,6 +94,14 @@ class Scheduler:
         if _ACTIVE is not None:
             raise RuntimeError("nested scheduler")
         _ACTIVE = self
+        # cyclic GC is switched off while managed threads run: a finaliser that runs
+        # monitored code (-> a yield) inside some stdlib lock's critical section would
+        # park a thread while it holds a real lock.  Refcount finalisers still run, at
+        # deterministic points of the workers' own code.
+        import gc
+
+        gc_was = gc.isenabled()
+        gc.disable()
         try:
             for t in self.tasks:
                 t.thread = _rt.Thread(target=self._thread_main, args=(t,), name=t.name, daemon=True)
@@ -103,11 +111,21 @@ class Scheduler:
             self.current = first
             first.gate.release()
             if not self.main_gate.acquire(timeout=self.wall_limit):
-                raise HarnessStuck(f"scheduler wall-clock watchdog after step {self.step}")
+                import traceback
+
+                frames = sys._current_frames()
+                dump = []
+                for t in self.tasks:
+                    f = frames.get(t.ident)
+                    dump.append(f"--- {t.name} state={t.state} current={t is self.current}\n"
+                                + ("".join(traceback.format_stack(f)[-8:]) if f else "<no frame>"))
+                raise HarnessStuck(f"scheduler wall-clock watchdog after step {self.step}\n" + "\n".join(dump))
             for t in self.tasks:
                 t.thread.join(timeout=5)
         finally:
             _ACTIVE = None
+            if gc_was:
+                gc.enable()
         return self
 
     def digest(self):
@@ -497,7 +515,11 @@ class Instrumentation:
     """Install LINE-event preemption on modules and substitute threading/time names.
     Use as a context manager; everything is restored on exit."""
 
-    def __init__(self, line_modules=(), threading_modules=(), time_names=()):
+    def __init__(self, line_modules=(), threading_modules=(), time_names=(), lock_attrs=()):
+        # lock_attrs: (module, attribute name) of module-level locks created at import
+        # time (real locks): swapped for scheduler-aware ones while instrumented, so a
+        # thread parked inside their critical section cannot block the baton holder.
+        self.lock_attrs = [(m, a) for m, a in lock_attrs if hasattr(m, a)]
         self.line_modules = list(line_modules)
         self.threading_modules = list(threading_modules)
         self.time_names = list(time_names)  # (module, attrname, kind) kind in {"module","func"}
@@ -556,6 +578,10 @@ class Instrumentation:
         for m in self.threading_modules:
             self.saved.append((m, "threading", m.threading))
             m.threading = self.proxy
+        for m, attr in self.lock_attrs:
+            old = getattr(m, attr)
+            self.saved.append((m, attr, old))
+            setattr(m, attr, SRLock() if "RLock" in type(old).__name__ else SLock())
         tp = TimeProxy()
         for m, attr, kind in self.time_names:
             self.saved.append((m, attr, getattr(m, attr)))
